@@ -165,17 +165,27 @@ def world_random(ctx, prop, blocks, length, seed_off=0):
     return st
 
 
-def world_threads(ctx, prop, blocks, rounds, ops, seed_off=0, defer=None, maxthreads=8, storms=0):
+def world_threads(ctx, prop, blocks, rounds, ops, seed_off=0, defer=None, maxthreads=8, storms=0, rstorms=0):
     out = ctx.fresh("wthr", "ndjson")
     st = run_bin(ctx, "world", ["threads", "--out", out, "--blocks", blocks, "--rounds", rounds, "--ops", ops,
                                 "--seed", ctx.seed * 1000 + 500 + seed_off, "--ntypes", 2, "--ndyns", 2, "--maxthreads", maxthreads,
-                                "--storms", storms, "--viol", 30000, "--keep", 30],
+                                "--storms", storms, "--viol", 30000, "--keep", 30, "--rstorms", rstorms, "--rstorm-ms", 30],
                  features=FEATURES)
     ctx.cov["impl_runs"].append({"kind": "impl->spec multi-thread call/return histories with canaries (linearizability)",
                                  "blocks": st["blocks"], "thread_calls": st["thread_calls"], "quiescent_probes": st["syncs"],
                                  "threads_per_block": st["threads_per_block"], "max_pending_calls": st["max_pending_calls"],
                                  "rounds_on_rayon_workers": st["rounds_on_rayon_workers"],
                                  "calls_overlapping_another": st["calls_overlapping_another"], "outcomes": st["outcomes"]})
+    if st.get("read_storm_blocks"):
+        rb = st["read_storm_blocks"]
+        ctx.cov["impl_runs"].append({
+            "kind": "impl->spec read storms: 4-8 threads issue only shared operations (fetch, try_fetch, try_fetch_by_id, Read / "
+                    "Option<Read> system data, Fetch::clone, MetaTable::iter) on the same two resources for ~30 ms, guards held "
+                    "across calls on one of them; one `rstorm` event with the failure count per block (the model grants all)",
+            "blocks": len(rb), "real_operations": sum(x["operations"] for x in rb), "failures": sum(x["failures"] for x in rb),
+            "threads": [x["threads"] for x in rb], "on_rayon_workers": sum(1 for x in rb if x["rayon"]),
+            "wall_s": round(sum(x["wall_s"] for x in rb), 2)})
+        ctx.cov["traces_validated_against_impl"] += len(rb)
     if st.get("storm_blocks"):
         sb = st["storm_blocks"]
         ctx.cov["impl_runs"].append({
@@ -234,13 +244,13 @@ def world_family(ctx, prop):
     if prop == "C08":
         world_cell_mc(ctx, threads=3, maxops=3 if q else 4)
         if q:
-            world_threads(ctx, prop, blocks=8, rounds=5, ops=24, defer=small, maxthreads=6, storms=3)
+            world_threads(ctx, prop, blocks=8, rounds=5, ops=24, defer=small, maxthreads=6, storms=3, rstorms=4)
         else:
             # the set of configurations kept by WorldTrace grows exponentially with the number of
             # simultaneously pending calls: many blocks with <= 4 threads, fewer and shorter ones with 8
-            world_threads(ctx, prop, blocks=30, rounds=8, ops=40, seed_off=0, maxthreads=4, storms=8)
-            world_threads(ctx, prop, blocks=30, rounds=8, ops=40, seed_off=1, maxthreads=4, storms=8)
-            world_threads(ctx, prop, blocks=12, rounds=6, ops=16, seed_off=2, maxthreads=8, storms=8)
+            world_threads(ctx, prop, blocks=30, rounds=8, ops=40, seed_off=0, maxthreads=4, storms=8, rstorms=12)
+            world_threads(ctx, prop, blocks=30, rounds=8, ops=40, seed_off=1, maxthreads=4, storms=8, rstorms=12)
+            world_threads(ctx, prop, blocks=12, rounds=6, ops=16, seed_off=2, maxthreads=8, storms=8, rstorms=12)
     if small:
         merged = ctx.fresh("wsmall", "ndjson")
         with open(merged, "w") as f:
